@@ -370,3 +370,75 @@ example : normRec exEnvX resultSpecs
         .evType exStopShape, .json (.bool false)] }
     = { tag := "add_waiter", vals := [.json (.str "w"), .none, .json (.obj []), .json .null,
         .evType exStopShape, .json (.bool false)] } := by decide
+
+/-! ## the result as callers see it: subclasses that override `_get_result` -/
+
+/-- `event.result` is `self._get_result()`, which a `StopEvent` subclass may override (wrap the raw
+payload, aggregate it, combine it with typed or dynamic fields: `Accessor`, any composition).
+For **every** accessor, every class shape and every instance: what callers read from `.result`
+after a round trip is what they read before — through `model_validate(model_dump())`, through
+the JSON serializer, and through the client envelope (under the guards of the path theorems). -/
+theorem C18_public_result_roundtrip (cenv : CEnv) (xenv : XEnv) (a : Accessor) (e : Inst)
+    (hw : e.wf xenv = true) :
+    (modelValidate xenv e.cls (.obj (dumpModel e))).map (publicResult a) = .ok (publicResult a e) ∧
+    (importable cenv e.cls = true →
+      (deserializeValue cenv xenv (serializeValue (.model e))).map (pyPublic a) = .ok (some (publicResult a e))) ∧
+    (∀ (includeQn : Bool) (registry : List Shape), e.cls.kind ≠ .plain →
+      resolves cenv (registryLookup registry) e.cls (if includeQn then .str e.cls.qual else .null) = true →
+      (loadEvent cenv xenv (metaFromEvent e includeQn) registry).map (publicResult a) = .ok (publicResult a e)) := by
+  refine ⟨?_, ?_, ?_⟩
+  · rw [C18_dump_validate_roundtrip xenv e hw]; rfl
+  · intro hi
+    rw [C18_json_roundtrip cenv xenv e hw hi]; rfl
+  · intro includeQn registry hev hreg
+    rw [C18_envelope_roundtrip cenv xenv e includeQn registry hw hev hreg]; rfl
+
+/-- a wrapping accessor combined with a typed field, on the example instance -/
+example : publicResult (.comp .wrapList (.withField "payload" "score")) exStop
+    = .arr [.obj [("payload", .obj [("answer", .int 42)]), ("score", .int 3)]] := by decide
+example : (modelValidate [] exStopShape (.obj (dumpModel exStop))).map (publicResult (.comp .wrapList (.withField "payload" "score")))
+    = .ok (.arr [.obj [("payload", .obj [("answer", .int 42)]), ("score", .int 3)]]) := by decide
+
+/-- The same in the persisted tick format: the `.result` of the event in every top-level slot of
+every tick kind (`publish_event`, `add_event`, `step_result`) is unchanged. -/
+theorem C18_public_result_tick (cenv : CEnv) (xenv : XEnv) (a : Accessor) (t : Tick)
+    (hf : fitsTick cenv xenv tickSpecs resultSpecs t = true) :
+    ∃ spec j, findSpec tickSpecs t.tag = some spec ∧ encodeTick resultSpecs spec t = .ok j ∧
+      (decodeTick cenv xenv tickSpecs resultSpecs j).map (fun t' => t'.vals.map (slotPublic a))
+        = .ok (t.vals.map (slotPublic a)) := by
+  obtain ⟨spec, j, h1, h2, h3⟩ := C18_tick_roundtrip cenv xenv t hf
+  refine ⟨spec, j, h1, h2, ?_⟩
+  rw [h3]
+  have hs : ∀ v, slotPublic a (normT xenv resultSpecs v) = slotPublic a v := by
+    intro v
+    cases v with
+    | s sv => cases sv <;> rfl
+    | results rs => rfl
+  simp [Except.map, normTick, List.map_map, Function.comp_def, hs]
+
+example : fitsTick exEnvC exEnvX tickSpecs resultSpecs { tag := "publish_event", vals := [.s (.event exStop)] } = true := by decide
+example : ({ tag := "publish_event", vals := [.s (.event exStop)] } : Tick).vals.map (slotPublic (.comp .total .wrapList))
+    = [some (.int 0)] := by decide
+
+/-- The wire carries the **raw** payload, not what `.result` reports.  For the base accessor the two
+serializers coincide … -/
+theorem C18_dump_accessor_raw (e : Inst) : dumpModelVia .raw e = dumpModel e := by
+  unfold dumpModelVia dumpModel publicResult
+  cases e.cls.kind <;> rfl
+
+/-- … and "a serializer that writes what `event.result` reports round-trips the result" … -/
+def C18_dump_accessor_value_statement : Prop :=
+  ∀ (xenv : XEnv) (a : Accessor) (e : Inst), e.wf xenv = true →
+    (modelValidate xenv e.cls (.obj (dumpModelVia a e))).map (publicResult a) = .ok (publicResult a e)
+
+/-- … is false as soon as the accessor is not idempotent: the override is applied to its own
+output after reading back (`[[5]]` for a wrapping accessor constructed with `5`). -/
+theorem C18_dump_accessor_value_refuted : ¬ C18_dump_accessor_value_statement := by
+  intro h
+  have := h [] .wrapList ⟨(Shape.top "app.events" "Done" .stop [] ["StopEvent"]), [], [], .int 5⟩ (by decide)
+  revert this
+  decide
+
+example : (modelValidate [] (Shape.top "app.events" "Done" .stop [] ["StopEvent"])
+    (.obj (dumpModelVia .wrapList ⟨(Shape.top "app.events" "Done" .stop [] ["StopEvent"]), [], [], .int 5⟩))).map
+      (publicResult .wrapList) = .ok (.arr [.arr [.int 5]]) := by decide
